@@ -31,7 +31,7 @@ ASSUMPTIONS = [
 EXPECTED_PROBES = ["F1", "F2", "pool_map_path", "prefetch_partial"]
 
 PLAN = {
-    "quick": {"workloads": 2200, "variants": 2, "wall_budget": 40.0, "min_variants": 1, "wall_limit": 1500.0, "per_job_limit": 600.0},
+    "quick": {"workloads": 2000, "variants": 2, "wall_budget": 40.0, "min_variants": 1, "wall_limit": 1500.0, "per_job_limit": 600.0},
     "thorough": {"workloads": 40000, "variants": 3, "wall_budget": 90.0, "min_variants": 1, "wall_limit": 8 * 3600.0, "per_job_limit": 1800.0},
 }
 
